@@ -136,7 +136,7 @@ fn kernel_record(o: &mut Vec<u8>, idx: u64, cls: Class, sub: u64, rng: &mut Rng)
         }
         _ => {
             // one xof_many record in 400 produces a megabyte (size thresholds inside a kernel)
-            n = if rng.chance(1, 150) { 16384 + rng.below(48) as u32 } else { 1 + (sub % 35) as u32 };
+            n = if idx < 500_000 && rng.chance(1, 150) { 16384 + rng.below(48) as u32 } else { 1 + (sub % 35) as u32 };
             block_len = ((sub / 35) % 65) as u8;
             flags = rng.below(256) as u8;
             fs = 0;
